@@ -754,6 +754,122 @@ def rule_a_ind(ctx):
 # ---------------------------------------------------------------------------
 # S-room: the no-grow insertion of a caller's element is only reached when the main table is known to have room
 # ---------------------------------------------------------------------------
+EXACT_LEN_SOURCES = {"drain", "iter", "iter_mut", "keys", "values", "values_mut", "into_iter"}
+
+
+def _reserved_loop_proof(ctx, body, c, sp):
+    """`self.reserve(other.len()); for e in other.drain() { .. at most one no-grow insertion into self .. }`: reserve(n) makes room for n
+    insertions (S-reserve, S-grow), griddle's own iterators yield exactly len() elements (C08's rules), so each insertion finds a free
+    slot — provided nothing else puts elements into self, or changes `other`, in between.  Returns a description, or None."""
+    from symexec import api_of
+    T = ctx.facts.types
+    if sp is None:
+        return None
+    loops = [(h, bl) for h, bl in body.loops() if c.loc.bb in bl]
+    if not loops:
+        return None
+    h, bl = min(loops, key=lambda x: len(x[1]))
+    polls = [x for x in ctx.calls(body) if x.loc.bb in bl and x.method == "next" and not body.is_cleanup(x.loc.bb)]
+    if len(polls) != 1 or not (polls[0].self_adt or "").startswith("griddle::"):
+        return None
+    Y = polls[0]
+    s_, _ = body.slice_back(Y.loc, [Y.args[0]])
+    makers = []
+    for l in s_:
+        if l.i == len(body.stmts(l.bb)) and body.term(l.bb)["k"] == "call" and l.bb not in bl:
+            m = ctx.call_at(body, l.bb)
+            lc = m.local_callee()
+            if lc is not None and lc.kind != "Closure" and lc.name in EXACT_LEN_SOURCES and "self_ty" in lc.raw \
+                    and T[strip_ref_id(T, lc.raw["self_ty"])].get("adt") in ctx.roles.holders:
+                makers.append(m)
+    if len(makers) != 1:
+        return None
+    M = makers[0]
+    X = M.arg_path(0)
+    if X is None:
+        return None
+    xkey = X.strip_refs().key()
+
+    def touches_self(cx):
+        """the call is handed `&mut` access to the split table the insertion goes into (or to the map that holds it)"""
+        for i, a in enumerate(cx.args):
+            if a["k"] not in ("copy", "move"):
+                continue
+            aty = T[a["place"]["ty"]]
+            if not (aty.get("k") == "ref" and aty.get("mut")):
+                continue
+            q = cx.arg_path(i)
+            if q is None:
+                continue
+            q2 = ctx.resolve(body, q)[1]
+            qs = ctx.roles.s_prefix(q2) if q2 is not None else None
+            if q2 is None:
+                continue
+            k2 = (qs if qs is not None else q2).strip_refs().key()
+            kq = q2.strip_refs().key()
+            if k2 == sp or (kq[0] == sp[0] and tuple(sp[1][:len(kq[1])]) == tuple(kq[1])):
+                return True       # the table itself, or a value it is part of (the map)
+        return False
+    # one insertion per element
+    if c.target is not None and c.loc.bb in body.reach_from([c.target], stop={Y.loc.bb}):
+        return None
+    for cx in ctx.calls(body):
+        if cx.loc.bb in bl and cx.loc != c.loc and not body.is_cleanup(cx.loc.bb) and touches_self(cx):
+            return None
+    # the reservation
+    for Rv in ctx.calls(body):
+        lc = Rv.local_callee()
+        if lc is None or lc.name != "reserve" or body.is_cleanup(Rv.loc.bb) or Rv.loc.bb in bl or not touches_self(Rv) or len(Rv.args) < 2:
+            continue
+        if not (Rv.loc.bb in body.dom().get(h, set()) or Rv.loc.bb == h):
+            continue
+        d = body.source_def(Rv.args[1])
+        if d is None or d[1] != "call":
+            continue
+        Ln = ctx.call_at(body, d[0].bb)
+        ll = Ln.local_callee()
+        if ll is None or ll.name != "len" or "self_ty" not in ll.raw or T[strip_ref_id(T, ll.raw["self_ty"])].get("adt") not in ctx.roles.holders:
+            continue
+        lp = Ln.arg_path(0)
+        if lp is None or lp.strip_refs().key() != xkey:
+            continue
+        # nothing changes `other` between len() and the iterator's creation; nothing else fills self between the reservation and the loop
+        bad = False
+        for x in between_blocks_incl(body, Ln.loc.bb, M.loc.bb):
+            if body.term(x)["k"] != "call" or x in (Ln.loc.bb, M.loc.bb):
+                continue
+            cx = ctx.call_at(body, x)
+            for i, a in enumerate(cx.args):
+                q = cx.arg_path(i)
+                aty = T[a["place"]["ty"]] if a["k"] in ("copy", "move") else {}
+                if q is not None and aty.get("k") == "ref" and aty.get("mut"):
+                    kq = q.strip_refs().key()
+                    if kq[0] == xkey[0] and (tuple(kq[1][:len(xkey[1])]) == tuple(xkey[1]) or tuple(xkey[1][:len(kq[1])]) == tuple(kq[1])):
+                        bad = True
+        for x in between_blocks_incl(body, Rv.loc.bb, h):
+            if body.term(x)["k"] != "call" or x == Rv.loc.bb:
+                continue
+            cx = ctx.call_at(body, x)
+            if touches_self(cx):
+                bad = True
+        if bad:
+            continue
+        return ("room was reserved for %s.len() elements at %s and the loop inserts at most one element per element of %s (an exact-length griddle iterator)"
+                % (X, Rv.where(), M.tname))
+    return None
+
+
+def strip_ref_id(T, tid):
+    while T[tid].get("k") == "ref":
+        tid = T[tid]["inner"]
+    return tid
+
+
+def between_blocks_incl(body, a_bb, b_bb):
+    from rules_protocol import between_blocks
+    return between_blocks(body, a_bb, b_bb) | {a_bb, b_bb}
+
+
 def rule_s_room(ctx):
     R = RuleResult("S-room", "hashbrown's insert_no_grow must find a free slot (it does not check): a caller-supplied element is put into the main table with it "
                    "only on the `capacity() != len()` edge of a test of that same table (nothing touching the table in between), directly or through "
@@ -814,6 +930,10 @@ def rule_s_room(ctx):
                 break
         if guard is not None:
             R.inst(fn=body.path, site=c.where(), callee=c.tname, verdict="ok: on the has-room edge of the capacity test at %s" % body.where(Loc(guard, len(body.stmts(guard)))))
+            continue
+        proof = _reserved_loop_proof(ctx, body, c, sp) if guard is None else None
+        if proof is not None:
+            R.inst(fn=body.path, site=c.where(), callee=c.tname, verdict="ok: " + proof)
             continue
         if body.raw.get("unsafe") and body.kind != "Closure":
             # an unsafe wrapper: its callers inherit the obligation
